@@ -31,7 +31,10 @@ Definition check_case (c : ccase) : bool :=
       && agrees (sf_argv t j) sfa
       (* cwltool: execve of the pieces, or /bin/sh -c of the line *)
       && agrees (if t_shell t then sh_words (spec_line t j) else Some (spec_argv t j)) refa
-      && (negb ok || (opt_eqb String.eqb (sf_stdout_target so se) oo && opt_eqb String.eqb (sf_stderr_target so se) oe))
+      (* execute()'s redirections decide where fd 1/2 are only if the command text itself has none: a raw > asked for
+         with shellQuote: false redirects too; [sf_argv] = Some means the line is one simple command without operators *)
+      && (negb ok || match sf_argv t j with None => true | Some _ =>
+                       opt_eqb String.eqb (sf_stdout_target so se) oo && opt_eqb String.eqb (sf_stderr_target so se) oe end)
   | CStreams so se oo oe =>
       opt_eqb String.eqb (sf_stdout_target so se) oo && opt_eqb String.eqb (sf_stderr_target so se) oe
   end.
